@@ -80,10 +80,21 @@ def mk_msg(kind, tag, text):
 GOOD_KINDS = ["req", "req-int", "notif", "res", "err"]
 
 
+def canon_obj(d):
+    return json.dumps(d, sort_keys=True, ensure_ascii=True, default=repr)
+
+
+def full_tag(tag, canonical):
+    """identity of a message for the spec oracle: its unique tag AND a digest of its whole content"""
+    import hashlib
+    h = int.from_bytes(hashlib.blake2b(canonical.encode(), digest_size=5).digest(), "big")
+    return tag * (1 << 40) + h if tag >= 0 else -1
+
+
 def good_line(kind, tag, text, ascii_only=False, spaced=False):
     obj = mk_msg(kind, tag, text)
     s = json.dumps(obj, ensure_ascii=ascii_only, separators=(", ", ": ") if spaced else (",", ":"))
-    return {"raw": s.encode("utf-8"), "label": ("good", tag, kind == "notif"), "kind": kind}
+    return {"raw": s.encode("utf-8"), "label": ("good", full_tag(tag, canon_obj(obj)), kind == "notif"), "kind": kind}
 
 
 JUNK = {
@@ -107,6 +118,10 @@ JUNK = {
     "blank-spaces": b"  \t ",
     "blank-unicode-space": "\u2028\u0085 ".encode(),
     "two-messages-one-line": b'{"jsonrpc":"2.0","id":"m8","result":{}}{"jsonrpc":"2.0","id":"m9","result":{}}',
+    "two-messages-cr-separated": b'{"jsonrpc":"2.0","id":"m8","result":{}}\r{"jsonrpc":"2.0","id":"m9","result":{}}',
+    "two-messages-ff-separated": b'{"jsonrpc":"2.0","id":"m8","result":{}}\x0c{"jsonrpc":"2.0","id":"m9","result":{}}',
+    "two-messages-ls-separated": b'{"jsonrpc":"2.0","id":"m8","result":{}}\xe2\x80\xa8{"jsonrpc":"2.0","id":"m9","result":{}}',
+    "two-messages-nel-separated": b'{"jsonrpc":"2.0","id":"m8","result":{}}\xc2\x85{"jsonrpc":"2.0","id":"m9","result":{}}',
 }
 # validity left open by the property text: judged by the correspondence only
 GREY = {
@@ -137,7 +152,7 @@ def build_stream(lines, terms, tail=b""):
 
 
 TEXTS = ["", "a", S_E, S_EUR, S_AST, "\u0085", "\u2028", "\u2029", "a\nb", "x\r\ny", "\u2028\n\u0085",
-         "\\n", "\"q\"", S_E + S_EUR + S_AST, "\u00a0", "\x1c", "\t", "\x00", "\ufeff", "\ud7ff\ue000"]
+         "\\n", "\"q\"", S_E + S_EUR + S_AST, "a b  c", " lead and trail ", "\u00a0", "\x1c", "\t", "\x00", "\ufeff", "\ud7ff\ue000"]
 
 
 def small_streams():
@@ -166,6 +181,8 @@ def small_streams():
     out.append(build_stream([grey_line("batch")], [CRLF]))
     out.append(build_stream([junk_line("above-10ffff"), grey_line("c0-separator-around")], [LF, CRLF]))
     out.append(build_stream([junk_line("blank"), junk_line("blank"), g("req", "\\n")], [LF, CRLF, LF], tail=b"\r"))
+    out.append(build_stream([g("res", "a b  c"), junk_line("two-messages-cr-separated")], [LF, CRLF]))
+    out.append(build_stream([junk_line("two-messages-ls-separated"), g("res", "x y")], [LF, LF]))
     return out
 
 
@@ -238,10 +255,14 @@ def canon(m):
         d = m.model_dump(exclude_none=True)
     except Exception:
         d = {"<unexpected>": repr(type(m))}
-    return json.dumps(d, sort_keys=True, ensure_ascii=True, default=repr)
+    return canon_obj(d)
 
 
 def tag_of(m):
+    return full_tag(raw_tag_of(m), canon(m))
+
+
+def raw_tag_of(m):
     mid = getattr(m, "id", None)
     if isinstance(mid, str) and mid.startswith("m") and mid[1:].isdigit():
         return int(mid[1:])
@@ -270,40 +291,58 @@ def new_client():
     return StdioClient(StdioParameters(command="fake-child", args=[]))
 
 
-async def feed_and_collect(proc, client, chunks):
+async def feed_and_collect(proc, client, chunks, take_notif=True):
     """Feed all chunks, then wait until the reader has consumed them and asks for more, receiving from both
-    streams meanwhile (the main stream's send blocks once 100 messages are buffered)."""
+    streams meanwhile (the main stream's send blocks once 100 messages are buffered).  Returns
+    (main, notifications, alive): alive=False when the reader stopped consuming (its task ended)."""
     main, notif = [], []
     so = proc.stdout
     for ch in chunks:
         so.feed(ch)
-    with anyio.fail_after(20):
-        while so._chunks or so.requests <= so.fed:
-            await anyio.sleep(0)
-            main += drain(client._incoming_recv)
+    stall, last = 0, None
+    while so._chunks or so.requests <= so.fed:
+        await anyio.sleep(0)
+        got = drain(client._incoming_recv)
+        main += got
+        if take_notif:
             notif += drain(client.notifications)
+        now = (len(so._chunks), so.requests, len(main))
+        stall = stall + 1 if now == last else 0
+        last = now
+        if stall > 300:
+            break
+    alive = not (so._chunks or so.requests <= so.fed)
     main += drain(client._incoming_recv)
-    notif += drain(client.notifications)
-    return main, notif
+    if take_notif:
+        notif += drain(client.notifications)
+    return main, notif, alive
 
 
 async def run_chunkings(data, chunkings, flush):
     """One real StdioClient, many chunkings of the same stream.  After each chunking a lone LF flushes the
-    unterminated tail (if any) so that the next chunking starts from an empty buffer."""
-    proc = FakeProcess()
+    unterminated tail (if any) so that the next chunking starts from an empty buffer.  A reader that stops
+    consuming gets a fresh client for the next chunking."""
     res = []
-    with patched_open_process(proc):
-        client = new_client()
-        async with client:
-            for cuts in chunkings:
-                main, notif = await feed_and_collect(proc, client, apply_cuts(data, cuts))
-                fl = None
-                if flush:
-                    fm, fn = await feed_and_collect(proc, client, [b"\n"])
-                    fl = ([canon(m) for m in fm], [canon(m) for m in fn])
-                res.append(([canon(m) for m in main], [tag_of(m) for m in main],
-                            [canon(m) for m in notif], [tag_of(m) for m in notif], fl))
-            proc.stdout.close()
+    i = 0
+    while i < len(chunkings):
+        proc = FakeProcess()
+        with patched_open_process(proc):
+            client = new_client()
+            async with client:
+                while i < len(chunkings):
+                    main, notif, alive = await feed_and_collect(proc, client, apply_cuts(data, chunkings[i]))
+                    fl = None
+                    if flush:
+                        fl = ([], [])
+                        if alive:
+                            fm, fn, alive = await feed_and_collect(proc, client, [b"\n"])
+                            fl = ([canon(m) for m in fm], [canon(m) for m in fn])
+                    res.append(([canon(m) for m in main], [tag_of(m) for m in main],
+                                [canon(m) for m in notif], [tag_of(m) for m in notif], fl))
+                    i += 1
+                    if not alive:
+                        break
+                proc.stdout.close()
     return res
 
 
@@ -315,7 +354,7 @@ async def _isolated(raw):
     with patched_open_process(proc):
         client = new_client()
         async with client:
-            main, notif = await feed_and_collect(proc, client, [raw + b"\n"])
+            main, notif, _alive = await feed_and_collect(proc, client, [raw + b"\n"])
             proc.stdout.close()
     return [canon(m) for m in main], [canon(m) for m in notif]
 
@@ -584,17 +623,16 @@ async def _overflow_run(script):
             for kind, val in script:
                 if kind == "lines":
                     for i in range(0, len(val), 40):
-                        proc.stdout.feed(b"".join(r + b"\n" for r in val[i:i + 40]))
-                        with anyio.fail_after(10):
-                            await proc.stdout.drained()
-                        main += [tag_of(m) for m in drain(client._incoming_recv)]
+                        got, _n, _alive = await feed_and_collect(proc, client, [b"".join(r + b"\n" for r in val[i:i + 40])],
+                                                                 take_notif=False)
+                        main += [raw_tag_of(m) for m in got]
                 else:
                     for _ in range(val):
                         try:
-                            recv.append(tag_of(client.notifications.receive_nowait()))
+                            recv.append(raw_tag_of(client.notifications.receive_nowait()))
                         except anyio.WouldBlock:
                             pass
-            queue = [tag_of(m) for m in drain(client.notifications)]
+            queue = [raw_tag_of(m) for m in drain(client.notifications)]
             proc.stdout.close()
     return cap, main, recv, queue
 
@@ -779,7 +817,7 @@ def run(ctx):
         explore(ctx, drv)
     if ctx.thorough:
         lib.coqchk(ctx, "C05")
-    ctx.rule = ("real StdioClient._stdout_reader over a scripted process.stdout. (a) 14 structured streams <= 150 bytes "
+    ctx.rule = ("real StdioClient._stdout_reader over a scripted process.stdout. (a) 16 structured streams <= 150 bytes "
                 "(168 thorough): EVERY cut into 1..3 chunks; (b) one stream per junk kind / grey kind / payload text "
                 "(ASCII, 2/3/4-byte UTF-8, U+0085/2028/2029, escaped \\n \\r, NBSP, C0 separators), LF and CRLF: every "
                 "cut into 1..2 chunks (1..3 thorough); (c) seeded streams of 3..300 lines with seeded cuts incl. one "
